@@ -380,6 +380,9 @@ _POS = {ast.Eq: '==', ast.NotEq: '!=', ast.Lt: '<', ast.GtE: '>=', ast.Gt: '>', 
 _SWAP = {'<': '>', '>': '<', '<=': '>=', '>=': '<=', '==': '==', '!=': '!='}
 
 
+ACCESSORS = {'eventless': 'event', 'internal': 'target'}
+
+
 def atoms(expr, polarity=True):
     """Normalise a condition into a list of atoms whose conjunction it implies.
     Atom: (op, left, right) strings; truthiness is ('truthy'|'falsy', x, '')."""
@@ -412,6 +415,9 @@ def atoms(expr, polarity=True):
         return [(sym, ls, rs)]
     if isinstance(expr, ast.Compare):
         return [('truthy' if polarity else 'falsy', ast.unparse(expr), '')]
+    # equivalent accessors of sismic.model.Transition (checked by C01.1): t.eventless == (t.event is None), t.internal == (t.target is None)
+    if isinstance(expr, ast.Attribute) and expr.attr in ACCESSORS:
+        return [('is' if polarity else 'is not', ast.unparse(expr.value) + '.' + ACCESSORS[expr.attr], 'None')]
     return [('truthy' if polarity else 'falsy', ast.unparse(expr), '')]
 
 
